@@ -13,6 +13,8 @@ Recording
                                    INSTANCES of a real solver and wrap its criterion, so a real EVQE run is recorded
 Scripted run (operators that replay a script through the real OperatorContext callbacks)
     ScriptedIndividual, ScriptedPopulation, ScriptTape, ScriptedOperator, ScriptedCriterion, ScriptExhausted
+    make_criterion(case, rec)      scripted (bool or numpy.bool_ answers) or built-in criterion (tapped) of a case
+    CriterionTap                   records the answers of any real criterion
     build_scripted_solver(...)     a real EvolvingAnsatzMinimumEigensolver around scripted operators
     run_scripted(case)             run one JSON-able case through compute_minimum_function_value, return observations
 Deterministic fakes
@@ -241,20 +243,28 @@ def individual_key(ind):
     return ("obj", id(ind))
 
 
-class _CriterionTap(EvolvingAnsatzMinimumEigensolverBaseTerminationCriterion):
+class CriterionTap(EvolvingAnsatzMinimumEigensolverBaseTerminationCriterion):
     """Wraps a real criterion: forwards, records arguments and answer."""
 
-    def __init__(self, inner, rec: Recorder, registry: Registry):
+    def __init__(self, inner, rec: Recorder, registry: Optional[Registry] = None):
         self.inner, self.rec, self.registry = inner, rec, registry
+        self.resets = 0
+        self.answer_types: set = set()   # type names of the raw answers (bool / bool_ ...)
 
     def reset_state(self) -> None:
+        self.resets += 1
         self.inner.reset_state()
 
     def check_termination(self, population_evaluation, best_individual, best_expectation_value) -> bool:
         b = self.inner.check_termination(
             population_evaluation=population_evaluation, best_individual=best_individual, best_expectation_value=best_expectation_value
         )
-        self.rec.add("crit", self.registry.result_id(population_evaluation), self.registry.individual_id(best_individual), best_expectation_value, bool(b))
+        self.answer_types.add(type(b).__name__)
+        if self.registry is not None:
+            rid, ind = self.registry.result_id(population_evaluation), self.registry.individual_id(best_individual)
+        else:   # scripted objects carry their own ids
+            rid, ind = getattr(population_evaluation, "rid", None), getattr(best_individual, "ident", None)
+        self.rec.add("crit", rid, ind, best_expectation_value, bool(b))
         return b
 
 
@@ -290,8 +300,8 @@ def instrument_solver(solver: EvolvingAnsatzMinimumEigensolver, rec: Recorder, r
         op.get_n_expected_circuit_evaluations = get_est
         op.apply_operator = apply
     crit = solver.configuration.termination_criterion
-    if crit is not None and not isinstance(crit, (_CriterionTap, ScriptedCriterion)):
-        solver.configuration.termination_criterion = _CriterionTap(crit, rec, registry)
+    if crit is not None and not isinstance(crit, (CriterionTap, ScriptedCriterion)):
+        solver.configuration.termination_criterion = CriterionTap(crit, rec, registry)
     return registry
 
 
@@ -349,8 +359,9 @@ class ScriptTape:
     n_qubits   size of the ScriptedIndividuals created for results
     """
 
-    def __init__(self, apps, estimates, n_qubits: int, rec: Optional[Recorder] = None):
+    def __init__(self, apps, estimates, n_qubits: int, rec: Optional[Recorder] = None, np_values: bool = False):
         self.apps, self.estimates, self.n_qubits = list(apps), list(estimates), n_qubits
+        self.np_values = np_values   # report best values as numpy.float64 (what the sampler path of the package yields)
         self.rec = rec or Recorder()
         self.app_pos = self.est_pos = 0
         self.results_made: list = []
@@ -371,6 +382,8 @@ class ScriptTape:
 
     def make_result(self, rid, ind, value, population):
         best = ScriptedIndividual(ind, self.n_qubits)
+        if self.np_values:
+            value = np.float64(value)
         r = BasePopulationEvaluationResult(population=population, expectation_values=(value,), best_individual=best, best_expectation_value=value)
         r.rid = rid
         self.results_made.append(r)
@@ -426,10 +439,12 @@ def _named_exception(name: str) -> Exception:
 class ScriptedCriterion(EvolvingAnsatzMinimumEigensolverBaseTerminationCriterion):
     """The k-th call of check_termination since the last reset answers answers[k] (False once they are used up);
     every call is recorded with the arguments it received (scripted objects by their own ids; pass the run's
-    Registry when the criterion is used in a real EVQE run)."""
+    Registry when the criterion is used in a real EVQE run).  as_numpy: the answers are numpy.bool_ objects (truthy /
+    falsy, but not the `True` / `False` singletons) — the recording always holds plain bools."""
 
-    def __init__(self, answers, rec: Recorder, registry: Optional["Registry"] = None):
+    def __init__(self, answers, rec: Recorder, registry: Optional["Registry"] = None, as_numpy: bool = False):
         self.answers, self.rec, self.registry = [bool(a) for a in answers], rec, registry
+        self.as_numpy = as_numpy   # answer with numpy.bool_ (what the built-in criteria return for numpy float values)
         self.calls = 0
         self.resets = 0
 
@@ -445,7 +460,7 @@ class ScriptedCriterion(EvolvingAnsatzMinimumEigensolverBaseTerminationCriterion
         else:
             rid, ind = getattr(population_evaluation, "rid", None), getattr(best_individual, "ident", None)
         self.rec.add("crit", rid, ind, best_expectation_value, b)
-        return b
+        return np.bool_(b) if self.as_numpy else b
 
 
 def build_scripted_solver(n_ops, tape: ScriptTape, max_generations=None, max_circuit_evaluations=None, criterion=None,
@@ -484,22 +499,80 @@ def _bits_to_int(bitstring: str) -> int:
     return int(bitstring, 2)
 
 
+def make_criterion(case: dict, rec: Recorder):
+    """The termination criterion of a scripted case: None, a ScriptedCriterion for case["criterion"] (numpy answers with
+    case["criterion_np"]), or — case["real_criterion"] = {"kind": "change"|"relative"|"threshold", "x": float,
+    "violations": int} — one of the package's own best-individual criteria, tapped so that its answers are recorded."""
+    rc = case.get("real_criterion")
+    if rc is not None:
+        from queasars.minimum_eigensolvers.base import termination_criteria as tc
+
+        if rc["kind"] == "change":
+            inner = tc.BestIndividualChangeTolerance(minimum_change=rc["x"], allowed_consecutive_violations=rc.get("violations", 0))
+        elif rc["kind"] == "relative":
+            inner = tc.BestIndividualRelativeChangeTolerance(minimum_relative_change=rc["x"], allowed_consecutive_violations=rc.get("violations", 0))
+        else:
+            inner = tc.BestIndividualExpectationValueThreshold(expectation_threshold=rc["x"])
+        return CriterionTap(inner, rec)
+    if case.get("criterion") is None:
+        return None
+    return ScriptedCriterion(case["criterion"], rec, as_numpy=bool(case.get("criterion_np")))
+
+
 def run_scripted(case: dict) -> dict:
     """Run one scripted case through the public entry point compute_minimum_function_value.
 
     case: dict(n_ops, n_qubits, max_generations, max_evals, criterion=[bool]|None, init=int|None,
                aux=None | {"list":[a,..]} | {"dict":[[name,a],..]}, pop0, apps=[...], estimates=[...])
+    optional keys:
+      criterion_np      the scripted criterion answers with numpy.bool_
+      np_values         the scripted results carry numpy.float64 best values
+      real_criterion    a built-in criterion instead of the scripted one (see make_criterion)
+      construct_limits  {"max_generations", "max_evals", "criterion"}: the solver is CONSTRUCTED with these limits; the
+                        case's own limits are then assigned to the public, mutable solver.configuration before solving —
+                        the limits in force when the solve is called are the case's
+      then              a further case (same n_ops / n_qubits) solved afterwards with the SAME solver object, its limits
+                        assigned to solver.configuration in between
     Aux evaluator `a` maps a measured bitstring b to 1000*a + int(b); the main evaluator maps b to int(b) (unused by
     scripted operators).  The initial state `init` is X on the set bits of init, so the best individual `i` behind it
     is measured as i xor init with certainty.
 
-    Returns dict(items=[recorded items], outcome={"ok": {...}} | {"err": class name, "msg": str}).
+    Returns dict(items=[recorded items], outcome={"ok": {...}} | {"err": class name, "msg": str}, criterion_resets,
+    answer_types, then=<the same for case["then"]> if present).
     """
     n = case["n_qubits"]
     rec = Recorder()
-    tape = ScriptTape(case["apps"], case["estimates"], n, rec)
-    crit = None if case.get("criterion") is None else ScriptedCriterion(case["criterion"], rec)
-    solver = build_scripted_solver(case["n_ops"], tape, case.get("max_generations"), case.get("max_evals"), crit, pop0=case.get("pop0", 0))
+    tape = ScriptTape(case["apps"], case["estimates"], n, rec, np_values=bool(case.get("np_values")))
+    crit = make_criterion(case, rec)
+    l0 = case.get("construct_limits")
+    if l0 is None:
+        solver = build_scripted_solver(case["n_ops"], tape, case.get("max_generations"), case.get("max_evals"), crit, pop0=case.get("pop0", 0))
+    else:
+        crit0 = None if l0.get("criterion") is None else ScriptedCriterion(l0["criterion"], Recorder())
+        solver = build_scripted_solver(case["n_ops"], tape, l0.get("max_generations"), l0.get("max_evals"), crit0, pop0=case.get("pop0", 0))
+        _assign_limits(solver, case, crit)
+    out = _solve_scripted(solver, tape, rec, crit, case)
+    nxt = case.get("then")
+    if nxt is not None:
+        rec2 = Recorder()
+        tape2 = ScriptTape(nxt["apps"], nxt["estimates"], n, rec2, np_values=bool(nxt.get("np_values")))
+        crit2 = make_criterion(nxt, rec2)
+        for op in solver.configuration.evolutionary_operators:
+            op.tape = tape2
+        _assign_limits(solver, nxt, crit2)
+        out["then"] = _solve_scripted(solver, tape2, rec2, crit2, nxt)
+    return out
+
+
+def _assign_limits(solver, case: dict, crit) -> None:
+    """Set the limits of `case` on the solver's public configuration object (a plain mutable dataclass)."""
+    solver.configuration.max_generations = case.get("max_generations")
+    solver.configuration.max_circuit_evaluations = case.get("max_evals")
+    solver.configuration.termination_criterion = crit
+
+
+def _solve_scripted(solver, tape, rec, crit, case) -> dict:
+    n = case["n_qubits"]
     init = None
     if case.get("init") is not None:
         init = QuantumCircuit(n)
@@ -510,10 +583,12 @@ def run_scripted(case: dict) -> dict:
     mk = lambda a: BitstringEvaluator(n, lambda b, _a=a: float(1000 * _a + _bits_to_int(b)))
     aux = case.get("aux")
     aux_arg = None if aux is None else ([mk(a) for a in aux["list"]] if "list" in aux else {k: mk(a) for k, a in aux["dict"]})
+    extra = lambda: dict(criterion_resets=None if crit is None else crit.resets,
+                         answer_types=sorted(getattr(crit, "answer_types", [])) if crit is not None else [])
     try:
         res = solver.compute_minimum_function_value(operator=main, aux_operators=aux_arg, initial_state_circuit=init)
     except Exception as e:
-        return dict(items=rec.items, outcome={"err": type(e).__name__, "msg": str(e)[:200]}, criterion_resets=None if crit is None else crit.resets)
+        return dict(items=rec.items, outcome={"err": type(e).__name__, "msg": str(e)[:200]}, **extra())
     probs = res.eigenstate.binary_probabilities() if res.eigenstate is not None else {}
     sure = [b for b, p in probs.items() if abs(p - 1.0) < 1e-12]
     ao = res.aux_operators_evaluated
@@ -530,7 +605,7 @@ def run_scripted(case: dict) -> dict:
         history_is_tape_objects=all(a is b for a, b in zip(res.population_evaluation_results or [], tape.results_made))
         and len(res.population_evaluation_results or []) == len(tape.results_made),
     )
-    return dict(items=rec.items, outcome={"ok": ok}, criterion_resets=None if crit is None else crit.resets)
+    return dict(items=rec.items, outcome={"ok": ok}, **extra())
 
 
 # =============================================================================================== deterministic fakes
@@ -631,9 +706,12 @@ class CoordinateSearch(Optimizer):
 
 
 # =============================================================================================== EVQE helpers
-def random_evqe_setup(rng, quick: bool = True, family: Optional[str] = None) -> dict:
+def random_evqe_setup(rng, quick: bool = True, family: Optional[str] = None, plain_fitness: Optional[bool] = None) -> dict:
     """A small random EVQE configuration as a JSON-able dict (see build_evqe / build_package_solver);
-    family: "evqe" | "package" | None (random)."""
+    family: "evqe" | "package" | None (random).
+    plain_fitness: both selection penalties 0 and no roulette offset (tournament selection, or an objective shifted to be
+    strictly positive), at least two generations and a speciation threshold that merges species — the configuration in
+    which the selection fitness of an individual is its expectation value times its species size and nothing else."""
     n_qubits = rng.choice([1, 2, 2, 2, 3] if not quick else [1, 2, 2])
     evaluator = rng.choice(["estimator", "sampler", "bitstring"])
     pop = rng.randint(2, 4 if quick else 6)
@@ -667,6 +745,22 @@ def random_evqe_setup(rng, quick: bool = True, family: Optional[str] = None) -> 
     # family "package": base configuration around the package's own speciation/selection with a fixed seeded initial
     # population.  `more`: further problems solved afterwards with the SAME solver object (other operator, other initial
     # state, other aux form): the result of every solve has to be consistent with its own history.
+    if plain_fitness is None:
+        plain_fitness = rng.random() < 0.25
+    setup["penalty"] = 0.0 if plain_fitness else rng.choice([0.0, 0.1, 0.1])
+    setup["positive"] = rng.random() < 0.3      # objective shifted to be strictly positive (roulette offset 0)
+    if plain_fitness:
+        if rng.random() < 0.5:
+            setup["tournament"], setup["tournament_size"] = True, rng.randint(1, pop)
+        else:
+            setup["tournament"], setup["tournament_size"], setup["positive"] = False, None, True
+        setup["distance"] = rng.choice([2, 3, 10])
+        if setup["max_generations"] is None or setup["max_generations"] < 2:
+            setup["max_generations"] = rng.randint(2, 3)
+        if setup["max_evals"] is not None:
+            setup["max_evals"] = max(setup["max_evals"], 200)
+        if setup["criterion"] is not None:
+            setup["criterion"] = [False, False] + setup["criterion"]
     setup["family"] = family or rng.choice(["evqe", "evqe", "package"])
     if setup["family"] == "package" and setup["max_generations"] is None and setup["criterion"] is None:
         setup["max_generations"] = rng.randint(1, 3)   # selection alone may report too few evaluations to hit a budget
@@ -709,13 +803,18 @@ def evqe_problem(solver, setup: dict, problem: Optional[dict] = None):
     p.update(problem or {})
     n, c = setup["n_qubits"], p["coeffs"]
     init = _init_circuit(n, p["init"])
+    positive = bool(setup.get("positive"))   # shift the objective above zero: every expectation value is > 0
     if setup["evaluator"] == "bitstring":
         w = [c[i % len(c)] for i in range(n)]
         mkb = lambda shift: BitstringEvaluator(n, lambda b, _s=shift: float(sum(w[i] for i, ch in enumerate(b) if ch == "1") + _s))
-        op = mkb(0.0)
+        op = mkb(sum(abs(x) for x in w) + 0.5 if positive else 0.0)
         auxes = [mkb(1.0), mkb(-2.0)]
     else:
         op = _hamiltonian(n, c)
+        if positive:
+            from qiskit.quantum_info import SparsePauliOp
+
+            op = (op + SparsePauliOp.from_list([("I" * n, sum(abs(x) for x in c) + 0.5)])).simplify()
         auxes = [_hamiltonian(n, c[1:] + c[:1]), _hamiltonian(n, [1.0, 0.0, 0.0])]
     aux = {None: None, "list": auxes, "list0": [], "dict": {"first": auxes[0], "second": auxes[1]}}[p["aux"]]
 
@@ -746,8 +845,8 @@ def build_evqe(setup: dict, criterion=None):
         random_seed=setup["seed"],
         population_size=setup["population_size"],
         speciation_genetic_distance_threshold=setup["distance"],
-        selection_alpha_penalty=0.1,
-        selection_beta_penalty=0.1,
+        selection_alpha_penalty=setup.get("penalty", 0.1),
+        selection_beta_penalty=setup.get("penalty", 0.1),
         parameter_search_probability=setup["p_param"],
         topological_search_probability=setup["p_topo"],
         layer_removal_probability=setup["p_remove"],
@@ -777,7 +876,7 @@ def build_package_solver(setup: dict, criterion=None):
 
     ops = [
         EVQESpeciation(genetic_distance_threshold=setup["distance"], random_seed=setup["seed"] + 1),
-        EVQESelection(alpha_penalty=0.1, beta_penalty=0.1, use_tournament_selection=setup["tournament"],
+        EVQESelection(alpha_penalty=setup.get("penalty", 0.1), beta_penalty=setup.get("penalty", 0.1), use_tournament_selection=setup["tournament"],
                       tournament_size=setup["tournament_size"], random_seed=setup["seed"] + 2),
     ]
     if setup["p_topo"] > 0:
